@@ -45,7 +45,7 @@ NCOMBO = len(KINDS) ** 3 * len(NBS)
 
 
 def n_cases(tier):
-    return 2 * NCOMBO if tier == "quick" else 24 * NCOMBO
+    return 6 * NCOMBO if tier == "quick" else 48 * NCOMBO
 
 
 def _rates(rng, kind, exact, n_rel, n_all):
